@@ -37,7 +37,10 @@ def ref_split_path(path, minsegs, maxsegs, rest_with_last):
 
 def paths(thorough=False):
     segs = ('a', '', 'b.c', 'x y')
-    out = set(['', '/', 'a', 'a/b', '//', '///', '/a//', '//a'])
+    out = set(['', '/', 'a', 'a/b', '//', '///', '/a//', '//a',
+               # white space at either end is part of a segment
+               '/ ', '/a/ ', ' /a', '/a/b ', '/ a', '/a/ /b', '/\t', '/a\n',
+               '/a/b/ ', ' ', '\n/a', '/a /b', '/ /', '/a/\x0b'])
     for n in range(1, 8 if thorough else 6):
         for combo in itertools.product(segs, repeat=n):
             if n > (4 if thorough else 3) and len(set(combo)) > 2:
@@ -144,7 +147,8 @@ def _split_by_commas(ctx):
         interp.method_raises['parseString'] = ['pyparsing.ParseException']
         interp.method_raises['parse_string'] = ['pyparsing.ParseException']
     outcomes, _i = extract(world, thunk, setup=setup)
-    alphabet = ('a', 'b', ',', '"', '\\', ' ', 'a b', 'x,y', '', 'ab')
+    alphabet = ('a', 'b', ',', '"', '\\', ' ', 'a b', 'x,y', '', 'ab',
+                'a,,b', ',,', 'a\\"b', '\\"', '"\\', '\\\\"')
     cases = {}
     for n in (1, 2, 3):
         for items in itertools.product(alphabet, repeat=n):
